@@ -372,6 +372,7 @@ func main() {
 	}
 	for i := range files {
 		files[i].Pkg = fmt.Sprintf("p%04d", i)
+		tagParsable(&files[i])
 	}
 	plan := map[string]*enumPlan{}
 	for i := range files {
